@@ -691,6 +691,9 @@ class FnTrans:
             target = s.gname(cname)
             if MODEL == 'ie' and cname in LIBM and cname not in s.em.rename: target = 'ie_' + cname
             if (s.name, cname) in s.em.callrename: target = s.em.callrename[(s.name, cname)]; f = None
+            else:
+                for (cp, kp), new in s.em.callrename.items():
+                    if cp.endswith('*') and kp.endswith('*') and s.name.startswith(cp[:-1]) and cname.startswith(kp[:-1]): target = new; f = None; break
             if f and not f.get('vararg') and len(f['params']) == len(args):
                 # cast args to declared param types (pointer type mismatches are legal in IR via bitcast, be defensive)
                 av = [f"({s.em.ctype(pt)}){a}" if isinstance(pt, Ptr) else a for a, (pt, _) in zip(av, f['params'])]
